@@ -76,6 +76,7 @@ type Worker struct {
 	covers    []string
 	observed  []string
 	pcTerms   []*Term
+	known     map[*Term]bool
 	fresh     int
 	curHarn   *harnessRun
 	cborBlobs map[*value]*cborRec
@@ -146,6 +147,17 @@ func (hr *harnessRun) noteInconclusive(msg string) {
 func (w *Worker) assertPC(t *Term) {
 	w.sol.Assert(t)
 	w.pcTerms = append(w.pcTerms, t)
+	w.noteKnown(t)
+}
+
+// noteKnown records a fact that holds on this path (asserted or implied), so
+// that repeated decisions on the same condition need no solver query.
+func (w *Worker) noteKnown(t *Term) {
+	w.known[t] = true
+	if t.Op == OAnd {
+		w.noteKnown(t.Args[0])
+		w.noteKnown(t.Args[1])
+	}
 }
 
 // decideBool returns the truth value chosen for cond on this path.
@@ -156,6 +168,13 @@ func (w *Worker) decideBool(cond *Term, what string) bool {
 	if w.lenient {
 		unsupported("symbolic decision during init")
 	}
+	if w.known[cond] {
+		return true
+	}
+	ncond0 := w.tc.Not(cond)
+	if w.known[ncond0] {
+		return false
+	}
 	if w.pos < len(w.prefix) {
 		v := w.prefix[w.pos]
 		w.pos++
@@ -165,8 +184,12 @@ func (w *Worker) decideBool(cond *Term, what string) bool {
 			if taken {
 				w.assertPC(cond)
 			} else {
-				w.assertPC(w.tc.Not(cond))
+				w.assertPC(ncond0)
 			}
+		} else if taken {
+			w.noteKnown(cond)
+		} else {
+			w.noteKnown(ncond0)
 		}
 		return taken
 	}
@@ -174,6 +197,7 @@ func (w *Worker) decideBool(cond *Term, what string) bool {
 	r0 := w.sol.CheckWith(cond)
 	if r0 == Unsat {
 		w.trace = append(w.trace, 1|forcedBit)
+		w.noteKnown(ncond0)
 		return false
 	}
 	if r0 == Unknown {
@@ -183,6 +207,7 @@ func (w *Worker) decideBool(cond *Term, what string) bool {
 	r1 := w.sol.CheckWith(ncond)
 	if r1 == Unsat {
 		w.trace = append(w.trace, 0|forcedBit)
+		w.noteKnown(cond)
 		return true
 	}
 	if r1 == Unknown {
@@ -328,6 +353,21 @@ func (hr *harnessRun) done() {
 // ---- inputs ----
 
 func (w *Worker) newInput(name string, s Sort) *Term {
+	if fw := w.eng.fixedWitness; fw != nil {
+		// concrete (debug / translator validation) mode: inputs come from a witness
+		v := new(big.Int)
+		if sv, ok := fw[name]; ok {
+			v.SetString(sv, 10)
+		}
+		switch s.K {
+		case SBool:
+			return w.tc.Bool(v.Sign() != 0)
+		case SInt:
+			return w.tc.IntConst(v)
+		default:
+			return w.tc.BVConstBig(s.W, v)
+		}
+	}
 	if t, ok := w.inputSeen[name]; ok {
 		if t.S != s {
 			unsupported("input %q declared twice with different sorts", name)
@@ -371,9 +411,13 @@ func (w *Worker) resetPath(prefix []uint64) {
 	w.inputs = w.inputs[:0]
 	w.inputSeen = map[string]*Term{}
 	w.hashApps = w.hashApps[:0]
+	// the empty-input digests (computed at init time, e.g. hash.emptyHash) take part in injectivity
+	w.hashBytes("sha512_256", nil)
+	w.hashBytes("sha256", nil)
 	w.covers = nil
 	w.observed = nil
 	w.pcTerms = w.pcTerms[:0]
+	w.known = map[*Term]bool{}
 	w.fresh = 0
 	w.cborBlobs = nil
 }
@@ -462,7 +506,9 @@ func (w *Worker) runPath(hr *harnessRun, prefix []uint64) {
 	w.pathsDone++
 	if w.pathsDone%400 == 0 {
 		// bound solver and term-table growth
+		old := w.tc
 		w.tc = NewTermCtx()
+		w.tc.hashConsts = old.hashConsts
 		w.sol.tc = w.tc
 		w.sol.Restart()
 	}
